@@ -6,3 +6,4 @@ From PV Require Export C07.C07_MPMC_Proofs.
 From PV Require Export C07.C07_Chan_Proofs.
 From PV Require Export C07.C07_Chan_Inv.
 From PV Require Export C07.C07_Chan_InvS.
+From PV Require Export C07.C07_Batch_Proofs.
